@@ -71,6 +71,7 @@ func main() {
 	runWrappers(f, res)
 	runWrapChild(f, res, drv)
 	runRegistry(f, res, drv)
+	runOptions(f, res, drv)
 	runReentrant(f, res, drv)
 	runConc(f, res, drv)
 	runLin(f, res, drv)
